@@ -72,6 +72,8 @@ GROUPS = {
 }
 
 STYLES = {
+    "repairs": '''Produce a realistic maintenance commit that RE-WRITES RECENTLY REPAIRED CODE without changing behaviour. `git log --oneline | grep fix:` lists the recent repairs and `git show <commit>` shows each one. For every repair that touches the functions listed above, re-express the repaired lines in a different but exactly equivalent way (for ALL inputs, including the corner the repair was made for): e.g. an equivalent guard (`x is None` tests reordered, De Morgan, early return instead of nesting), an equivalent numpy spelling (np.broadcast_to vs. adding zeros of the target shape, np.clip vs. np.minimum/np.maximum, `.astype(int)` vs `np.asarray(..., dtype=int)` WHERE that is equivalent, `%`/np.mod/np.remainder, `isinstance(k, (int, np.integer))` vs `numbers.Integral` with the import added), the repaired expression moved into a small private helper (taking exactly what it needs), a local name introduced for a sub-expression, two sibling branches merged where they are identical, a comment reworded. Keep the repair's effect intact in every sibling (do not drop it from one branch). Add 8-15 ordinary behaviour-preserving refactor edits elsewhere in the listed functions (renamed locals, conditional expressions, comprehension vs loop, f-strings) so that the commit looks like normal maintenance.
+''',
     "modern": '''Produce a realistic "modernise the code base" commit - behaviour-preserving, but NOT mere cosmetic tidying. Use a good MIX of the following, spread over many of the listed functions (aim for 20-35 separate edits in total):
 - modern Python idioms: `match`/`case` statements for switches over a string option (same fall-through error), the walrus operator, conditional expressions instead of four-line if/else assignments, `enumerate`/`zip`/`itertools` instead of index arithmetic, star-unpacking (`a, *rest = ...`, `f(*args, **opts)`), `any(...)`/`all(...)` over generators instead of flag loops, chained comparisons, De Morgan rewrites of guards;
 - functional style: dispatch through the `operator` module or small lambdas (e.g. one private `_binary_op(self, other, op)` shared by `__add__`/`__sub__`/`__mul__`), `functools.partial`, nested helper functions (closures) that capture local variables, helper functions that return tuples, local aliases for library functions (`_fft = np.fft.fft`), a different import style (`from numpy import pi, sqrt, exp`, `import scipy.signal as sg`);
